@@ -1,7 +1,161 @@
 (* C08 — Editor diagnostics and quick-fix edits land exactly on the flagged text.
-   Pinned statements only. *)
+   Pinned statements only.  Model: Model/PosConv.v (harper-ls pos_conv.rs, the TextEdit of
+   diagnostics.rs, the lint selection of document_state.rs; specification side: resolve /
+   client_apply and their LSP-line-end versions).  Proofs: Proofs/PosConvProofs.v. *)
 Require Import Base Suggestion PosConv ListLemmas SuggestionProofs PosConvProofs.
 
+(* diagnostic ranges: the position harper computes for a character index, read back as line /
+   UTF-16 column (lines split at '\n', astral characters = 2 code units: len_utf16), is that index.
+   Unbounded: every text, every index up to and including the end. *)
+Theorem C08_index_to_position_sound :
+  forall (t : text) (i : nat), i <= length t ->
+  exists p, index_to_position t i = Ok p /\ resolve t p = Some i.
+Proof. exact index_to_position_sound. Qed.
+Check C08_index_to_position_sound :
+  forall (t : text) (i : nat), i <= length t ->
+  exists p, index_to_position t i = Ok p /\ resolve t p = Some i.
+Print Assumptions C08_index_to_position_sound.
+
+(* ... explicitly: line = number of '\n' before i; character = sum of len_utf16 over the
+   newline-free text between the last '\n' before i and i *)
+Theorem C08_index_to_position_value :
+  forall (t : text) (i : nat), i <= length t ->
+  exists P ln, firstn i t = P ++ ln /\ complete P /\ nonl ln /\
+    index_to_position t i = Ok (count_nl (firstn i t), sum_utf16 ln).
+Proof. exact index_to_position_value. Qed.
+Check C08_index_to_position_value :
+  forall (t : text) (i : nat), i <= length t ->
+  exists P ln, firstn i t = P ++ ln /\ complete P /\ nonl ln /\
+    index_to_position t i = Ok (count_nl (firstn i t), sum_utf16 ln).
+Print Assumptions C08_index_to_position_value.
+
+(* the range of a diagnostic covers exactly the characters of the lint's span *)
+Theorem C08_span_to_range_sound :
+  forall (t : text) (sp : span), span_in (length t) sp ->
+  exists pa pb, span_to_range t sp = Ok (pa, pb) /\
+    resolve t pa = Some (sstart sp) /\ resolve t pb = Some (send sp).
+Proof. exact span_to_range_sound. Qed.
+Check C08_span_to_range_sound :
+  forall (t : text) (sp : span), span_in (length t) sp ->
+  exists pa pb, span_to_range t sp = Ok (pa, pb) /\
+    resolve t pa = Some (sstart sp) /\ resolve t pb = Some (send sp).
+Print Assumptions C08_span_to_range_sound.
+
+(* the same with the line ends an LSP client knows ("\n", "\r\n", "\r"): holds for texts whose
+   every '\r' is followed by '\n', at every index except the one between a '\r' and its '\n'
+   (premises monitored by the harness on every lint: "lint span endpoints not between CR and LF") *)
+Theorem C08_index_to_position_sound_lsp :
+  forall (t : text) (i : nat), i <= length t -> no_lone_cr t -> ~ inside_crlf t i ->
+  exists p, index_to_position t i = Ok p /\ resolve_lsp t p = Some i.
+Proof. exact index_to_position_sound_lsp. Qed.
+Check C08_index_to_position_sound_lsp :
+  forall (t : text) (i : nat), i <= length t -> no_lone_cr t -> ~ inside_crlf t i ->
+  exists p, index_to_position t i = Ok p /\ resolve_lsp t p = Some i.
+Print Assumptions C08_index_to_position_sound_lsp.
+
+(* ... and that premise cannot be dropped ("a\r\nb", index 2: harper counts '\r' as line content) *)
+Theorem C08_crlf_premise_needed :
+  exists t i p, i <= length t /\ no_lone_cr t /\ inside_crlf t i /\
+    index_to_position t i = Ok p /\ resolve_lsp t p = None.
+Proof. exact crlf_premise_needed. Qed.
+Check C08_crlf_premise_needed :
+  exists t i p, i <= length t /\ no_lone_cr t /\ inside_crlf t i /\
+    index_to_position t i = Ok p /\ resolve_lsp t p = None.
+Print Assumptions C08_crlf_premise_needed.
+
+(* quick fixes: the TextEdit built by lint_to_code_actions (range = span_to_range, new_text per
+   suggestion kind, InsertAfter re-emitting the flagged text), applied the way a client applies
+   it, is Suggestion::apply on the lint's character span — all three kinds, any span inside the text *)
+Theorem C08_edit_equiv :
+  forall (s : suggestion) (sp : span) (t : text), span_in (length t) sp ->
+  exists r nt out,
+    text_edit s sp t = Ok (r, nt) /\ client_apply t r nt = Some out /\ apply s sp t = Ok out.
+Proof. exact edit_equiv. Qed.
+Check C08_edit_equiv :
+  forall (s : suggestion) (sp : span) (t : text), span_in (length t) sp ->
+  exists r nt out,
+    text_edit s sp t = Ok (r, nt) /\ client_apply t r nt = Some out /\ apply s sp t = Ok out.
+Print Assumptions C08_edit_equiv.
+
+(* ... the client's document afterwards, kind by kind *)
+Theorem C08_edit_equiv_value :
+  forall (s : suggestion) (sp : span) (t : text), span_in (length t) sp ->
+  exists r nt,
+    text_edit s sp t = Ok (r, nt) /\
+    client_apply t r nt =
+      Some (firstn (sstart sp) t ++
+            match s with
+            | ReplaceWith cs => cs
+            | InsertAfter cs => slice t (sstart sp) (send sp) ++ cs
+            | Remove => []
+            end ++ skipn (send sp) t).
+Proof. exact edit_equiv_value. Qed.
+Check C08_edit_equiv_value :
+  forall (s : suggestion) (sp : span) (t : text), span_in (length t) sp ->
+  exists r nt,
+    text_edit s sp t = Ok (r, nt) /\
+    client_apply t r nt =
+      Some (firstn (sstart sp) t ++
+            match s with
+            | ReplaceWith cs => cs
+            | InsertAfter cs => slice t (sstart sp) (send sp) ++ cs
+            | Remove => []
+            end ++ skipn (send sp) t).
+Print Assumptions C08_edit_equiv_value.
+
+(* ... and for a client with LSP line ends, under the CR-LF premise *)
+Theorem C08_edit_equiv_lsp :
+  forall (s : suggestion) (sp : span) (t : text),
+  span_in (length t) sp -> no_lone_cr t ->
+  ~ inside_crlf t (sstart sp) -> ~ inside_crlf t (send sp) ->
+  exists r nt out,
+    text_edit s sp t = Ok (r, nt) /\ client_apply_lsp t r nt = Some out /\ apply s sp t = Ok out.
+Proof. exact edit_equiv_lsp. Qed.
+Check C08_edit_equiv_lsp :
+  forall (s : suggestion) (sp : span) (t : text),
+  span_in (length t) sp -> no_lone_cr t ->
+  ~ inside_crlf t (sstart sp) -> ~ inside_crlf t (send sp) ->
+  exists r nt out,
+    text_edit s sp t = Ok (r, nt) /\ client_apply_lsp t r nt = Some out /\ apply s sp t = Ok out.
+Print Assumptions C08_edit_equiv_lsp.
+
+(* code-action lookup: outside the known class F9 (position on the final line of the text, that
+   line not being line 0) position_to_index inverts `resolve` on EVERY valid position *)
+Theorem C08_lookup :
+  forall (t : text) (line col i : nat),
+  resolve t (line, col) = Some i -> ~ KnownClass t line -> position_to_index t line col = Ok i.
+Proof. exact lookup_correct. Qed.
+Check C08_lookup :
+  forall (t : text) (line col i : nat),
+  resolve t (line, col) = Some i -> ~ KnownClass t line -> position_to_index t line col = Ok i.
+Print Assumptions C08_lookup.
+
+(* ... in particular on every position an LSP client regards as valid *)
+Theorem C08_lookup_lsp :
+  forall (t : text) (line col i : nat),
+  no_lone_cr t -> resolve_lsp t (line, col) = Some i -> ~ KnownClass t line ->
+  position_to_index t line col = Ok i.
+Proof. exact lookup_correct_lsp. Qed.
+Check C08_lookup_lsp :
+  forall (t : text) (line col i : nat),
+  no_lone_cr t -> resolve_lsp t (line, col) = Some i -> ~ KnownClass t line ->
+  position_to_index t line col = Ok i.
+Print Assumptions C08_lookup_lsp.
+
+(* the class is exact: EVERY valid position inside it is answered with an earlier index (F9) *)
+Theorem C08_lookup_known_class_exact :
+  forall (t : text) (line col i : nat),
+  resolve t (line, col) = Some i -> KnownClass t line ->
+  exists j, position_to_index t line col = Ok j /\ j < i.
+Proof. exact lookup_known_class_wrong. Qed.
+Check C08_lookup_known_class_exact :
+  forall (t : text) (line col i : nat),
+  resolve t (line, col) = Some i -> KnownClass t line ->
+  exists j, position_to_index t line col = Ok j /\ j < i.
+Print Assumptions C08_lookup_known_class_exact.
+
+(* F9, the concrete witness: "ab\ncd", cursor (1,0) on the 'c' of a lint on "cd": index 0 is
+   answered and the lint is not offered *)
 Theorem C08_lookup_refuted :
   exists t line col i,
     KnownClass t line /\ resolve t (line, col) = Some i /\ i < length t /\
@@ -14,3 +168,170 @@ Check C08_lookup_refuted :
     position_to_index t line col <> Ok i /\
     selected t ((line, col), (line, col)) [mkspan 3 5] = Ok [].
 Print Assumptions C08_lookup_refuted.
+
+(* range_to_span (Span::new can panic): total and exact on valid ranges outside the class *)
+Theorem C08_range_to_span :
+  forall (t : text) (p1 p2 : position) (i1 i2 : nat),
+  resolve t p1 = Some i1 -> resolve t p2 = Some i2 -> i1 <= i2 ->
+  ~ KnownClass t (fst p1) -> ~ KnownClass t (fst p2) ->
+  range_to_span t (p1, p2) = Ok (mkspan i1 i2).
+Proof. exact range_to_span_correct. Qed.
+Check C08_range_to_span :
+  forall (t : text) (p1 p2 : position) (i1 i2 : nat),
+  resolve t p1 = Some i1 -> resolve t p2 = Some i2 -> i1 <= i2 ->
+  ~ KnownClass t (fst p1) -> ~ KnownClass t (fst p2) ->
+  range_to_span t (p1, p2) = Ok (mkspan i1 i2).
+Print Assumptions C08_range_to_span.
+
+(* generate_code_actions offers exactly the lints whose span contains the character at the start
+   of the requested range *)
+Theorem C08_selected_exact :
+  forall (t : text) (p1 p2 : position) (i1 i2 : nat) (lints : list span),
+  resolve t p1 = Some i1 -> resolve t p2 = Some i2 -> i1 <= i2 ->
+  ~ KnownClass t (fst p1) -> ~ KnownClass t (fst p2) ->
+  selected t (p1, p2) lints = Ok (filter (covers i1) lints).
+Proof. exact selected_correct. Qed.
+Check C08_selected_exact :
+  forall (t : text) (p1 p2 : position) (i1 i2 : nat) (lints : list span),
+  resolve t p1 = Some i1 -> resolve t p2 = Some i2 -> i1 <= i2 ->
+  ~ KnownClass t (fst p1) -> ~ KnownClass t (fst p2) ->
+  selected t (p1, p2) lints = Ok (filter (covers i1) lints).
+Print Assumptions C08_selected_exact.
+
+(* hence: requesting code actions anywhere inside a diagnostic's range returns that lint *)
+Theorem C08_code_action_selected :
+  forall (t : text) (p1 p2 : position) (i1 i2 : nat) (lints : list span) (sp : span),
+  resolve t p1 = Some i1 -> resolve t p2 = Some i2 -> i1 <= i2 ->
+  ~ KnownClass t (fst p1) -> ~ KnownClass t (fst p2) ->
+  In sp lints -> sstart sp <= i1 < send sp ->
+  exists sel, selected t (p1, p2) lints = Ok sel /\ In sp sel.
+Proof. exact code_action_selected. Qed.
+Check C08_code_action_selected :
+  forall (t : text) (p1 p2 : position) (i1 i2 : nat) (lints : list span) (sp : span),
+  resolve t p1 = Some i1 -> resolve t p2 = Some i2 -> i1 <= i2 ->
+  ~ KnownClass t (fst p1) -> ~ KnownClass t (fst p2) ->
+  In sp lints -> sstart sp <= i1 < send sp ->
+  exists sel, selected t (p1, p2) lints = Ok sel /\ In sp sel.
+Print Assumptions C08_code_action_selected.
+
+(* totality (no panic) of the four conversion functions on in-range inputs *)
+Theorem C08_index_to_position_total :
+  forall (t : text) (i : nat), i <= length t -> is_ok (index_to_position t i) = true.
+Proof. exact index_to_position_total. Qed.
+Check C08_index_to_position_total :
+  forall (t : text) (i : nat), i <= length t -> is_ok (index_to_position t i) = true.
+Print Assumptions C08_index_to_position_total.
+
+(* ... the error branch: an index beyond the text panics in &source[0..index] *)
+Theorem C08_index_to_position_rejects :
+  forall (t : text) (i : nat), length t < i -> index_to_position t i = Panic PIndex.
+Proof. exact index_to_position_rejects. Qed.
+Check C08_index_to_position_rejects :
+  forall (t : text) (i : nat), length t < i -> index_to_position t i = Panic PIndex.
+Print Assumptions C08_index_to_position_rejects.
+
+Theorem C08_span_to_range_total :
+  forall (t : text) (sp : span), span_in (length t) sp -> is_ok (span_to_range t sp) = true.
+Proof. exact span_to_range_total. Qed.
+Check C08_span_to_range_total :
+  forall (t : text) (sp : span), span_in (length t) sp -> is_ok (span_to_range t sp) = true.
+Print Assumptions C08_span_to_range_total.
+
+(* position_to_index never panics — any text, any position, existing or not — and stays in the text *)
+Theorem C08_position_to_index_total :
+  forall (t : text) (line col : nat), exists i, position_to_index t line col = Ok i /\ i <= length t.
+Proof. exact position_to_index_total. Qed.
+Check C08_position_to_index_total :
+  forall (t : text) (line col : nat), exists i, position_to_index t line col = Ok i /\ i <= length t.
+Print Assumptions C08_position_to_index_total.
+
+(* the code with fixes/F9.diff applied (Model: position_to_index_fixed; NOT the current tree):
+   C08_lookup without the KnownClass premise *)
+Theorem C08_lookup_fixed :
+  forall (t : text) (line col i : nat),
+  resolve t (line, col) = Some i -> position_to_index_fixed t line col = Ok i.
+Proof. exact lookup_fixed_correct. Qed.
+Check C08_lookup_fixed :
+  forall (t : text) (line col i : nat),
+  resolve t (line, col) = Some i -> position_to_index_fixed t line col = Ok i.
+Print Assumptions C08_lookup_fixed.
+
+(* ... the patch changes nothing outside the class *)
+Theorem C08_lookup_fixed_outside :
+  forall (t : text) (line col : nat),
+  ~ KnownClass t line -> position_to_index_fixed t line col = position_to_index t line col.
+Proof. exact p2i_fixed_outside. Qed.
+Check C08_lookup_fixed_outside :
+  forall (t : text) (line col : nat),
+  ~ KnownClass t line -> position_to_index_fixed t line col = position_to_index t line col.
+Print Assumptions C08_lookup_fixed_outside.
+
+Theorem C08_selected_fixed :
+  forall (t : text) (p1 p2 : position) (i1 i2 : nat) (lints : list span),
+  resolve t p1 = Some i1 -> resolve t p2 = Some i2 -> i1 <= i2 ->
+  selected_fixed t (p1, p2) lints = Ok (filter (covers i1) lints).
+Proof. exact selected_fixed_correct. Qed.
+Check C08_selected_fixed :
+  forall (t : text) (p1 p2 : position) (i1 i2 : nat) (lints : list span),
+  resolve t p1 = Some i1 -> resolve t p2 = Some i2 -> i1 <= i2 ->
+  selected_fixed t (p1, p2) lints = Ok (filter (covers i1) lints).
+Print Assumptions C08_selected_fixed.
+
+Theorem C08_position_to_index_fixed_total :
+  forall (t : text) (line col : nat), exists i, position_to_index_fixed t line col = Ok i /\ i <= length t.
+Proof. exact position_to_index_fixed_total. Qed.
+Check C08_position_to_index_fixed_total :
+  forall (t : text) (line col : nat), exists i, position_to_index_fixed t line col = Ok i /\ i <= length t.
+Print Assumptions C08_position_to_index_fixed_total.
+
+(* ------------------------------------------------------------------------------------------ *)
+(*  non-vacuity: the hypotheses are satisfiable on non-trivial inputs                            *)
+(* ------------------------------------------------------------------------------------------ *)
+(* "a😀\r\nb𝒜c\nd"  (astral characters at 1 and 5; CR-LF; last line without newline) *)
+Definition ex_text : text := [97; 128512; 13; 10; 98; 119964; 99; 10; 100]%N.
+
+(* index 6 = 'c' on line 1 behind an astral character: column 3, not 2 *)
+Example C08_ex_sound :
+  6 <= length ex_text /\ no_lone_cr ex_text /\ ~ inside_crlf ex_text 6 /\
+  index_to_position ex_text 6 = Ok (1, 3) /\ resolve ex_text (1, 3) = Some 6 /\
+  resolve_lsp ex_text (1, 3) = Some 6 /\ resolve ex_text (1, 2) = None.
+Proof.
+  split; [cbn; lia|]. split.
+  - cbn. repeat split; try discriminate. intros _. now eexists.
+  - split; [|now vm_compute].
+    intros [a [b [E L]]]. assert (length a = 5) as La by lia.
+    do 6 (destruct a as [|? a]; [discriminate|]). discriminate.
+Qed.
+
+(* the three kinds on the multi-line span [1,6) = "😀\r\nb𝒜" *)
+Example C08_ex_edit :
+  span_in (length ex_text) (mkspan 1 6) /\
+  text_edit (InsertAfter [120%N]) (mkspan 1 6) ex_text = Ok (((0, 1), (1, 3)), [128512; 13; 10; 98; 119964; 120]%N) /\
+  client_apply_lsp ex_text ((0, 1), (1, 3)) [128512; 13; 10; 98; 119964; 120]%N
+    = Some [97; 128512; 13; 10; 98; 119964; 120; 99; 10; 100]%N /\
+  apply (InsertAfter [120%N]) (mkspan 1 6) ex_text = Ok [97; 128512; 13; 10; 98; 119964; 120; 99; 10; 100]%N /\
+  text_edit Remove (mkspan 1 6) ex_text = Ok (((0, 1), (1, 3)), []) /\
+  text_edit (ReplaceWith [120%N]) (mkspan 1 6) ex_text = Ok (((0, 1), (1, 3)), [120%N]).
+Proof. split; [split; cbn; lia|]. now vm_compute. Qed.
+
+(* a valid position outside the class (line 1 of 3) and one inside it (line 2, the final line) *)
+Example C08_ex_lookup :
+  resolve ex_text (1, 3) = Some 6 /\ ~ KnownClass ex_text 1 /\ position_to_index ex_text 1 3 = Ok 6 /\
+  resolve ex_text (2, 0) = Some 8 /\ KnownClass ex_text 2 /\ position_to_index ex_text 2 0 = Ok 4 /\
+  position_to_index_fixed ex_text 2 0 = Ok 8 /\
+  selected ex_text ((1, 3), (1, 4)) [mkspan 0 2; mkspan 4 7; mkspan 6 7; mkspan 7 9] = Ok [mkspan 4 7; mkspan 6 7].
+Proof.
+  split; [now vm_compute|]. split; [unfold KnownClass; vm_compute; lia|]. split; [now vm_compute|].
+  split; [now vm_compute|]. split; [unfold KnownClass; vm_compute; lia|]. now vm_compute.
+Qed.
+
+(* the patched model keeps the answers the pinned harper-ls tests encode:
+   end_of_file "This is a short test" (1,20) -> 20 is checked on the shape "abc" (1,3) -> 3;
+   issue_250 "Hello thur\n" (1,9) -> 9, (1,10) -> 10 and end_of_line on "Hello thur\n" directly *)
+Example C08_ex_fixed_keeps_pinned_tests :
+  let hello := [72; 101; 108; 108; 111; 32; 116; 104; 117; 114; 10]%N in
+  position_to_index_fixed hello 1 9 = Ok 9 /\ position_to_index_fixed hello 1 10 = Ok 10 /\
+  position_to_index_fixed hello 1 0 = Ok 11 /\ position_to_index hello 1 0 = Ok 0 /\
+  position_to_index_fixed [97; 98; 99]%N 1 3 = Ok 3 /\
+  position_to_index_fixed [97; 98; 10; 99; 100]%N 1 0 = Ok 3.
+Proof. now vm_compute. Qed.
